@@ -160,6 +160,12 @@ class VCSAPI:
                     status_items.append((status, old_filepath))
             else:
                 status, filepath = line.split(" ", 1)
+            if status == "??" and filepath.endswith("/"):
+                # An untracked directory is listed as one entry. If any of the
+                # required files is inside, it is that file which is untracked.
+                for required_file in sorted(required_files):
+                    if required_file.startswith(filepath):
+                        status_items.append((status, required_file))
             status_items.append((status, filepath))
 
         return [
